@@ -48,6 +48,12 @@ Extension families (reduced alphabets, see ``alphabet``)
   the tree as class default); every value is compared with G(node, t) of a separate fresh subtree and with a
   plain-Python model of the distribution formula over the operands' values and the node's own draw at t.
 
+* huge times and switching orders (bounded/c19_time.py, core in bounded/c19_time_core.py): family HT -- time grids
+  base + k*step in int / float / Fraction / Decimal with |base| up to 1e18 and relative steps down to 1e-15 x visit
+  orders x generator kinds (random, ScaledTime, plain function); family SO -- every admissible order of {Dynamic
+  switch, construction, generator time dependence switched by keyword / TimeAware class level / own class level /
+  instance, time function by keyword / class level / instance} x draws before the switch x walks.
+
 Scope: only well-nested histories (no pop without push, no exit without enter); blocks still open
 at the end of a history are closed normally (and checked).  Instance 2 is only used after
 instance 1 (the instances are created identically, so this is a pure symmetry reduction).
@@ -903,7 +909,11 @@ def run(tier, seed):
         # repeated reads at one time): bounded/c19_nest.py, core shared with its replays in bounded/c19_nest_core.py
         from bounded import c19_nest
         nested = c19_nest.extend(B, tier, seed)
-        B._distinct = set(range(ndistinct + nested))
+        # families "huge times / tiny relative steps" and "order of switching time dependence and the time function
+        # relative to generator construction": bounded/c19_time.py, core shared with its replays in c19_time_core.py
+        from bounded import c19_time
+        timed = c19_time.extend(B, tier, seed)
+        B._distinct = set(range(ndistinct + nested + timed))
     finally:
         param.Dynamic.time_dependent = saved_td
         tm(saved_time)
